@@ -3,7 +3,7 @@
    (Gen/Limiters.v); the closed forms sp_table are hand-written in Spec/LimiterSpec.v. *)
 From Coq Require Import Reals String List.
 From PFV Require Import OField KOps Limiters LimiterSpec LimiterThy.
-Open Scope R_scope.
+Local Open Scope R_scope.
 
 (* every named limiter evaluates the published closed form, for every real r *)
 Theorem C13_published : forall eps name sp, 0 < eps -> lookup name sp_table = Some sp ->
